@@ -126,3 +126,32 @@ func H_C01_literals() {
 }
 
 var wideSlotNames = []string{"w0", "w1", "w2", "w3", "w4", "w5", "w6", "w7", "w8", "w9", "w10"}
+
+// programs are commonly built from shared sub-expressions (Clone of a common prefix, extended
+// differently at each use): every use renders its own continuation, whatever spare capacity
+// the shared statement happens to have
+func H_C01_clone_reuse() {
+	a, b := nondetString("a"), nondetString("b")
+	var base *Statement
+	switch nondetChoice("len", 3) {
+	case 0:
+		base = Id(a)
+	case 1:
+		base = Id(a).Dot(b)
+	case 2:
+		base = Id(a).Dot(b).Dot("c")
+	}
+	baseText, _ := c14raw(base, NewFile("p"))
+	s1 := base.Clone().Op("++")
+	s2 := base.Clone().Op("--")
+	s3 := base.Clone().Op("=").Lit(1)
+	f := NewFile("p")
+	o1, _ := c14raw(s1, f)
+	o2, _ := c14raw(s2, f)
+	o3, _ := c14raw(s3, f)
+	o0, _ := c14raw(base, f)
+	verifAssert(o0 == baseText, "the shared prefix is unchanged by its uses")
+	verifAssert(o1 == baseText+" ++", "first use renders its own continuation")
+	verifAssert(o2 == baseText+" --", "second use renders its own continuation")
+	verifAssert(o3 == baseText+" = 1", "third use renders its own continuation")
+}
